@@ -584,7 +584,14 @@ type PyObjRef = *aPyObjRef
 // PyNewFunc creates a new python function.
 func (p Package) PyNewFunc(name string, sig *types.Signature, doInit bool) PyObjRef {
 	if v, ok := p.pyobjs[name]; ok {
-		return v
+		if ptr, ok := v.raw.Type.(*types.Pointer); ok && types.Identical(ptr.Elem(), sig) {
+			return v
+		}
+		// Another Go declaration of the same Python object (e.g. Dir / DirEx):
+		// share the global, but type the reference with this declaration's
+		// signature, which selects the call form.
+		ty := &aType{v.Obj.ll, rawType{types.NewPointer(sig)}, vkPyFuncRef}
+		return &aPyObjRef{Expr{v.Obj.impl, ty}, v.Obj}
 	}
 	prog := p.Prog
 	obj := p.NewVar(name, prog.PyObjectPtrPtr().RawType(), InC)
